@@ -449,6 +449,18 @@ func TestVerif(t *testing.T) {
 		for c := rune(0); c <= hiRune; c++ {
 			names = append(names, "a"+string(c)+"b", string(c)+"ab", "ab"+string(c), string(c)+string(c))
 		}
+		// ---- runes beyond Latin Extended-A that case-fold, normalise or render to an admitted character, invisible and
+		// directional characters, and malformed encodings of admitted characters (quantifier: "Unicode") ----
+		for _, c := range []string{
+			"\u212a", "\u017f", "\u0130", "\u0131", "\u2126", "\u00b5", "\u1e9e", // Kelvin, long s, dotted/dotless i, Ohm, micro, capital sharp s
+			"\uff3f", "\uff10", "\uff19", "\uff21", "\uff5a", "\u0391", "\u0410", "\u0430", "\u0661", "\u09e7", "\u2170", "\u24d0", // full-width _, 0, 9, A, z; Greek/Cyrillic A a; other digits; roman numeral; circled a
+			"\U0001d400", "\U0001d7ce", "\U0001f1e6", // mathematical bold A, bold 0, regional indicator A
+			"a\u0301", "\u0301", "\u200b", "\u200c", "\u200d", "\u2060", "\ufeff", "\u00ad", "\u202e", "\u202d", "\u2028", "\u2029", "\u0085", "\u3000", // combining, zero-width, BOM, soft hyphen, bidi overrides, separators
+			"\ufffd", "\ufffe", "\uffff", "\ue000", "\U0010ffff", // replacement, non-characters, private use, last code point
+			"\xc1\x81", "\xe0\x81\x81", "\xc0\x80", "\xed\xa0\x80", "\xf4\x90\x80\x80", "\xe2\x84", // overlong 'A', overlong NUL, surrogate, > U+10FFFF, truncated Kelvin
+		} {
+			names = append(names, "a"+c+"b", c+"ab", "ab"+c, c+c, "Steve"+c, c+"Abcdefghij_0123", "Abcdefghij_0123"+c)
+		}
 		for b := 0x80; b <= 0xFF; b++ { // lone bytes: invalid UTF-8
 			names = append(names, "a"+string([]byte{byte(b)})+"b")
 		}
@@ -481,6 +493,12 @@ func TestVerif(t *testing.T) {
 				h.login(name, "handler", p1202, config.LegacyForwardingMode, false)
 				h.login(name, "handler", version.Minecraft_1_8.Protocol, config.NoneForwardingMode, false)
 				h.login(name, "handler", version.Minecraft_1_19_3.Protocol, config.NoneForwardingMode, false)
+				// the other protocol gates of the login completion / backend login: 1.7.x, 1.13, 1.20.1 (last optional-id), 1.20.5, newest
+				for _, v := range []*proto.Version{version.Minecraft_1_7_6, version.Minecraft_1_13, version.Minecraft_1_20, version.Minecraft_1_20_5, version.MaximumVersion} {
+					if refNameOK(name) || i%49 == 0 {
+						h.login(name, "handler", v.Protocol, config.NoneForwardingMode, false)
+					}
+				}
 			}
 			// the profile id the client announces in its login start (optional 1.19.1-1.20.1, always from 1.20.2) must
 			// not influence the offline identity; absent / nil is what all runs above send
